@@ -649,6 +649,28 @@ def check_table(ctx, m, idx):
                     bad("resolve-with-config-%s-%s-%s" % (r[0], enc, sp), "get_resolved_res_configs(rid, config) does not return the value stored for that configuration",
                         rid="%08x" % rid, config=repr(model_cfg_key(c)), diff=r[1], got=[repr(x)[:160] for x in g[:6]])
                     break
+        # ONE caller-built configuration object, re-targeted with set_language_and_region between the queries (configurations that differ from the
+        # default in their locale only): each query answers for the locale the object carries at that moment
+        if not has_ref and len(stored) <= 8:
+            pure = [(c, e) for c, e in stored if c.lang and model_cfg_key(c)[0] == 0 and model_cfg_key(c)[2:] == (0, 0, 0, 0, b"", b"")]
+            if len(pure) >= 2:
+                cfg = None
+                for c, e in pure[:4] + pure[:1]:
+                    if cfg is None:
+                        cfg = ARSCResTableConfig(None, locale=c.locale_tag())
+                    else:
+                        cfg.set_language_and_region(c.locale_tag())
+                    g = q("get_resolved_res_configs(re-targeted config)", lambda: a.get_resolved_res_configs(rid, cfg))
+                    if g is KeyError:
+                        break
+                    ctx.count("queries_with_a_retargeted_config_object")
+                    w1 = [x for x in want if x[0] == model_cfg_key(c)]
+                    r = match_resolution(w1, g)
+                    if r and not (e.kind == "compact" and e.value.dtype != R.T_STRING):
+                        bad("resolve-with-retargeted-config-%s-%s" % (r[0], sp), "get_resolved_res_configs(rid, config): a configuration object whose locale was set again "
+                            "answers for an earlier locale", rid="%08x" % rid, locale_now=c.locale_tag(), locales_in_order=[x.locale_tag() for x, _ in pure[:4] + pure[:1]],
+                            diff=r[1], got=[repr(x)[:160] for x in g[:6]])
+                        break
         # names
         locs_here = set(locale_str(c) for c, _ in stored)
         for loc in sorted(locs_here)[:3]:
@@ -770,4 +792,5 @@ def run(ctx):
     ctx.require_counter("queries", 5000)
     ctx.require_counter("entries_checked", 2000)
     ctx.require_counter("cases_base", 30)
+    ctx.require_counter("queries_with_a_retargeted_config_object", 100)
     ctx.min_distinct = 50
